@@ -2816,7 +2816,12 @@ impl Scenario for PayloadCut {
                 let e30_at = if before_stop { Some(pos_of(li, pi + 1) as u64 + 64) } else { None };
                 let mode = if rng.chance(1, 2) { CHECK_MODES[1] } else { CHECK_MODES[3] };
                 let im = pick_input_mode(&mut rng);
-                let mut spec = specgen::spec(im, &s(mode), st.bytes());
+                // (1 in 3 at another verbosity: what is logged must not change what is done)
+                let mut parts = s(mode);
+                if rng.chance(1, 3) {
+                    parts.extend(s(&["-v", *rng.pick(&["0", "2", "3"])]));
+                }
+                let mut spec = specgen::spec(im, &parts, st.bytes());
                 if rng.chance(3, 4) {
                     swarm_schedule(&mut spec, &mut rng, 300 + st.total_packets() as u64 * 12);
                 }
